@@ -135,6 +135,13 @@ func dumpNode(out *[]uint32, n *a.Node) {
 	}
 }
 
+func exprLine(e *a.Expr, err error, filename string) string {
+	if err != nil {
+		return parseLine(nil, nil, err, filename)
+	}
+	return dumpLine(e.AsNode())
+}
+
 func parseLine(tm *t.Map, file *a.File, err error, filename string) string {
 	if err != nil {
 		msg := err.Error()
@@ -146,8 +153,12 @@ func parseLine(tm *t.Map, file *a.File, err error, filename string) string {
 		}
 		return "err -"
 	}
+	return dumpLine(file.AsNode())
+}
+
+func dumpLine(n *a.Node) string {
 	dump := make([]uint32, 0, 1024)
-	dumpNode(&dump, file.AsNode())
+	dumpNode(&dump, n)
 	h := fnvInit
 	for _, x := range dump {
 		h.u32(x)
